@@ -1,1 +1,2 @@
 import ArcheProofs.Props.C04
+import ArcheProofs.Props.C12
